@@ -245,6 +245,8 @@ def _arm_dp_misc(w, cond):
     else:
         i.o2, i.rm = "reg", w & 15
         i.sh, i.sha = decode_imm_shift(_b(w, 6, 5), _b(w, 11, 7))
+        if i.rm == 15 and (i.sh, i.sha) != (LSL, 0):
+            _ill(w, "UNPREDICTABLE: pc as a shifted Rm (LLVM: potentially undefined)")
     return i
 
 
@@ -393,6 +395,24 @@ def _arm_ldm(w, cond):
 def _arm_media(w, cond):
     op1, op2 = _b(w, 24, 20), _b(w, 7, 5)
     a, b, c, d = _b(w, 19, 16), _b(w, 15, 12), _b(w, 11, 8), w & 15
+    if op1 in (0x0A, 0x0B, 0x0E, 0x0F) and op2 & 1 == 0 and (w >> 4) & 3 == 1:
+        if b == 15 or d == 15:
+            _ill(w, "UNPREDICTABLE: pc in saturate")
+        sat = _b(w, 20, 16)
+        st, n = (ASR, _b(w, 11, 7) or 32) if w & 0x40 else (LSL, _b(w, 11, 7))
+        return Insn("sat", "ssat" if op1 < 0x0C else "usat", 4, cond, rd=b, rn=d, imm=sat + 1 if op1 < 0x0C else sat, sh=st, sha=n)
+    if op1 == 0x08 and (w >> 4) & 3 == 1:
+        if 15 in (a, b, d):
+            _ill(w, "UNPREDICTABLE: pc in pkh")
+        st, n = (ASR, _b(w, 11, 7) or 32) if w & 0x40 else (LSL, _b(w, 11, 7))
+        return Insn("pkh", "pkhtb" if w & 0x40 else "pkhbt", 4, cond, rd=b, rn=a, rm=d, sh=st, sha=n)
+    if op1 in (0x08, 0x0C) and op2 == 3:
+        if c & 3:
+            _ill(w, "UNPREDICTABLE: extend with bits 9:8 != 0")
+        if b == 15 or d == 15:
+            _ill(w, "UNPREDICTABLE: pc in extend")
+        base = "sxtb16" if op1 == 0x08 else "uxtb16"
+        return Insn("ext16", base if a == 15 else base[:3] + "a" + base[3:], 4, cond, rd=b, rn=None if a == 15 else a, rm=d, imm=8 * (c >> 2), aux=base)
     if op1 in (0x0A, 0x0B, 0x0E, 0x0F) and op2 == 3:
         if c & 3:
             _ill(w, "UNPREDICTABLE: extend with bits 9:8 != 0")
@@ -440,7 +460,7 @@ def _arm_media(w, cond):
         if cond != AL:
             _ill(w, "UNDEFINED: conditional udf")
         return Insn("trap", "udf", 4, cond, imm=(_b(w, 19, 8) << 4) | (w & 15))
-    _ill(w, "unsupported: media instruction (parallel/saturating arithmetic, pkh, sel, usad8, ssat/usat, 16-bit extends, dual multiplies)")
+    _ill(w, "unsupported: media instruction (parallel/saturating arithmetic, sel, usad8, ssat16/usat16, dual multiplies)")
 
 
 # ------------------------------------------------------------------------------------------------ Thumb decoder
@@ -588,7 +608,7 @@ def _t16_misc(h):
         return _dpimm("sub" if h & 0x80 else "add", 2, 13, 13, (h & 0x7F) << 2, aux="rdn")
     if op & 0x28 == 0x08:                              # 1011 x0x1: cbz / cbnz
         return Insn("cbz", "cbnz" if h & (1 << 11) else "cbz", 2, AL, rn=r0, imm=(_b(h, 9, 9) << 6) | (_b(h, 7, 3) << 1))
-    if op >> 2 == 0b00100:
+    if op >> 3 == 0b0010:
         name = ("sxth", "sxtb", "uxth", "uxtb")[_b(h, 7, 6)]
         return Insn("ext", name, 2, AL, rd=r0, rm=r3, imm=0, aux=name)
     if op >> 4 == 0b010:                               # push
@@ -601,7 +621,7 @@ def _t16_misc(h):
         if regs == 0:
             _ill(h, "UNPREDICTABLE: pop with an empty list")
         return Insn("ldm", "ldm", 2, AL, rn=13, regs=regs, W=True, aux="ia")
-    if op >> 2 == 0b10100:
+    if op >> 3 == 0b1010:
         k = _b(h, 7, 6)
         if k == 2:
             _ill(h, "UNDEFINED: 1011 1010 10")
@@ -724,13 +744,31 @@ def _t32_plain_imm(h1, h2, w):
         if rn == 15 or lsb + x > 31:
             _ill(w, "UNPREDICTABLE: bit-field extract from pc or beyond bit 31")
         return Insn("bfx", "sbfx" if op == 0x14 else "ubfx", 4, AL, rd=rd, rn=rn, imm=lsb, aux=x + 1)
-    _ill(w, "unsupported/UNDEFINED: T32 plain binary immediate op %#x (ssat/usat/...)" % op)
+    if op in (0x10, 0x12, 0x18, 0x1A):
+        n = (_b(h2, 14, 12) << 2) | _b(h2, 7, 6)
+        if h1 & 0x400 or h2 & 0x20:
+            _ill(w, "UNPREDICTABLE/UNDEFINED: saturate with should-be-zero bits set")
+        if op & 2 and n == 0:
+            _ill(w, "unsupported: ssat16/usat16")
+        if _bad(rd) or _bad(rn):
+            _ill(w, "UNPREDICTABLE: sp/pc in saturate")
+        sat = h2 & 31
+        return Insn("sat", "ssat" if op < 0x18 else "usat", 4, AL, rd=rd, rn=rn, imm=sat + 1 if op < 0x18 else sat, sh=ASR if op & 2 else LSL, sha=n)
+    _ill(w, "unsupported/UNDEFINED: T32 plain binary immediate op %#x" % op)
 
 
 def _t32_dp_shift(h1, h2, w):
     op, S, rn, rd, rm = _b(h1, 8, 5), bool(h1 & 0x10), h1 & 15, _b(h2, 11, 8), h2 & 15
     if h2 & 0x8000:
         _ill(w, "UNPREDICTABLE: bit 15 of the second halfword set")
+    if op == 6:
+        if S or h2 & 0x10:
+            _ill(w, "UNDEFINED: pkh with S or T bit set")
+        if _bad(rd) or _bad(rn) or _bad(rm):
+            _ill(w, "UNPREDICTABLE: sp/pc in pkh")
+        n = (_b(h2, 14, 12) << 2) | _b(h2, 7, 6)
+        st, n = (ASR, n or 32) if h2 & 0x20 else (LSL, n)
+        return Insn("pkh", "pkhtb" if h2 & 0x20 else "pkhbt", 4, AL, rd=rd, rn=rn, rm=rm, sh=st, sha=n)
     name, rd_, rn_ = _t32_dp_common(w, op, S, rn, rd)
     if _bad(rm):
         _ill(w, "UNPREDICTABLE: sp/pc as Rm")
@@ -747,15 +785,15 @@ def _t32_dp_reg(h1, h2, w):
             _ill(w, "UNPREDICTABLE: sp/pc in register shift")
         return Insn("dp", "mov", 4, AL, s=bool(a & 1), rd=rd, o2="rsr", rm=rn, sh=a >> 1, rs=rm)
     if a < 8 and b & 8:
-        if a > 5 or a in (2, 3):
-            _ill(w, "unsupported: sxtab16/uxtab16")
+        if a > 5:
+            _ill(w, "UNDEFINED: extend opcode")
         if b & 4:
             _ill(w, "UNPREDICTABLE: extend with bit 6 set")
-        base = {0: "sxth", 1: "uxth", 4: "sxtb", 5: "uxtb"}[a]
+        base = {0: "sxth", 1: "uxth", 2: "sxtb16", 3: "uxtb16", 4: "sxtb", 5: "uxtb"}[a]
         if _bad(rd) or _bad(rm) or rn == 13:
             _ill(w, "UNPREDICTABLE: sp/pc in extend")
         name = base if rn == 15 else base[:3] + "a" + base[3:]
-        return Insn("ext", name, 4, AL, rd=rd, rn=None if rn == 15 else rn, rm=rm, imm=8 * (b & 3), aux=base)
+        return Insn("ext16" if a in (2, 3) else "ext", name, 4, AL, rd=rd, rn=None if rn == 15 else rn, rm=rm, imm=8 * (b & 3), aux=base)
     if a in (9, 11) and b & 12 == 8:
         if rn != rm:
             _ill(w, "UNPREDICTABLE: rev/clz with the two Rm fields different")
@@ -892,10 +930,10 @@ def _t32_branch(h1, h2, w):
             if hint in (0, 1):
                 return Insn("nop", ("nop", "yield")[hint], 4, AL)
             _ill(w, "unsupported: hint %d (wfe/wfi/sev/dbg/...)" % hint)
+        if h1 & 0xFFF0 == 0xF7F0 and _b(h2, 15, 12) == 0xA:
+            return Insn("trap", "udf", 4, AL, imm=((h1 & 15) << 12) | (h2 & 0xFFF))
         _ill(w, "unsupported: msr/mrs/barriers/miscellaneous control")
     if k == 2:
-        if h1 & 0x7F0 == 0x7F0 and _b(h2, 15, 12) == 0xA:
-            return Insn("trap", "udf", 4, AL, imm=((h1 & 15) << 12) | (h2 & 0xFFF))
         _ill(w, "unsupported: blx immediate (switch to ARM state) / hvc / smc")
     i1, i2 = 1 - (j1 ^ S), 1 - (j2 ^ S)
     off = sx((S << 24) | (i1 << 23) | (i2 << 22) | ((h1 & 0x3FF) << 12) | ((h2 & 0x7FF) << 1), 25)
@@ -956,7 +994,10 @@ def _addr(i):
     base = REG[i.rn]
     if i.o2 == "imm":
         if i.P:
-            off = "" if (i.imm == 0 and i.U) else ", #%s%d" % (sign, i.imm)
+            plain = i.imm == 0 and i.U
+            if i.thumb and ((i.rn == 15 and i.rt2 is None) or i.W):
+                plain = False                                   # LLVM: "[pc, #0]" for Thumb literal loads, "[rn, #0]!" for T32 pre-indexed forms
+            off = "" if plain else ", #%s%d" % (sign, i.imm)
             return "[%s%s]%s" % (base, off, "!" if i.W else "")
         return "[%s], #%s%d" % (base, sign, i.imm)
     off = "%s%s%s" % (sign, REG[i.rm], _shift_suffix(i.sh, i.sha))
@@ -976,7 +1017,7 @@ def text(i, it_cond=None):
             if i.o2 == "imm":
                 op2 = _mod_imm_text(i.imm)
             elif i.o2 == "timm":
-                op2 = "#%d" % (_s32(thumb_expand_imm_c(i.imm, 0)[0]) if n not in ("mov",) or True else 0)
+                op2 = "#%d" % thumb_expand_imm_c(i.imm, 0)[0]
             else:
                 op2 = "#%d" % i.imm
             if n in ("addw", "subw"):
@@ -1027,7 +1068,11 @@ def text(i, it_cond=None):
         return "%s%s %s, %s, %s" % (n, c, REG[i.rd], REG[i.rn], REG[i.rm])
     if k == "un":
         return "%s%s %s, %s" % (n, c, REG[i.rd], REG[i.rm])
-    if k == "ext":
+    if k == "sat":
+        return "%s%s %s, #%d, %s%s" % (n, c, REG[i.rd], i.imm, REG[i.rn], _shift_suffix(i.sh, i.sha))
+    if k == "pkh":
+        return "%s%s %s, %s, %s%s" % (n, c, REG[i.rd], REG[i.rn], REG[i.rm], _shift_suffix(i.sh, i.sha))
+    if k in ("ext", "ext16"):
         rot = ", ror #%d" % i.imm if i.imm else ""
         if i.rn is None:
             return "%s%s %s, %s%s" % (n, c, REG[i.rd], REG[i.rm], rot)
@@ -1043,7 +1088,7 @@ def text(i, it_cond=None):
             return "%s%s %s, %s, %s" % (n, c, REG[i.rt], REG[i.rt2], _addr(i))
         return "%s%s %s, %s" % (n, c, REG[i.rt], _addr(i))
     if k in ("ldm", "stm"):
-        if i.rn == 13 and i.W and ((k == "stm" and i.aux == "db") or (k == "ldm" and i.aux == "ia")):
+        if i.rn == 13 and i.W and ((k == "stm" and i.aux == "db") or (k == "ldm" and i.aux == "ia")) and (i.thumb or i.regs & (i.regs - 1)):
             return "%s%s %s" % ("push" if k == "stm" else "pop", c, _reglist(i.regs))
         return "%s%s%s %s%s, %s" % (n, "" if i.aux == "ia" else i.aux, c, REG[i.rn], "!" if i.W else "", _reglist(i.regs))
     if k == "b":
@@ -1055,6 +1100,8 @@ def text(i, it_cond=None):
     if k == "tb":
         return "%s%s [%s, %s%s]" % (n, c, REG[i.rn], REG[i.rm], ", lsl #1" if n == "tbh" else "")
     if k == "adr":
+        if i.aux == "sub" and i.imm == 0:
+            return "subw%s %s, pc, #0" % (c, REG[i.rd])
         return "adr%s %s, #%d" % (c, REG[i.rd], i.imm)
     if k == "it":
         fc, mask = i.imm >> 4, i.imm & 15
@@ -1066,7 +1113,541 @@ def text(i, it_cond=None):
     if k == "nop":
         return n + c
     if k == "trap":
-        if n == "udf" and not i.thumb and i.imm == 0xFDEE:
+        if n == "udf" and ((not i.thumb and i.imm == 0xFDEE) or (i.size == 2 and i.imm == 254)):
             return "trap"
+        if n == "udf" and i.size == 2 and i.imm == 249:
+            return "__brkdiv0"
         return "%s%s #%d" % (n, c, i.imm)
     raise AssertionError(k)
+
+
+# ------------------------------------------------------------------------------------------------ execution
+
+def _sgn(v):
+    return v - 0x100000000 if v & 0x80000000 else v
+
+
+def _divq(a, b):
+    q = abs(a) // abs(b)
+    return -q if (a < 0) != (b < 0) else q
+
+
+_LDST = {"ldr": (4, False, True), "ldrb": (1, False, True), "ldrh": (2, False, True), "ldrsb": (1, True, True), "ldrsh": (2, True, True),
+         "str": (4, False, False), "strb": (1, False, False), "strh": (2, False, False)}
+
+
+class Machine:
+    """r[0..15] (r[15] holds the address of the current instruction between steps), flags n z c v q, thumb state bit, itstate,
+    one flat little-endian memory [base, base+size)."""
+
+    def __init__(self, size=1 << 18, base=0, strict_align=False, thumb=False):
+        self.base = base
+        self.mem = bytearray(size)
+        self.r = [0] * 16
+        self.n = self.z = self.c = self.v = self.q = 0
+        self.thumb = thumb
+        self.itstate = 0
+        self.steps = 0
+        self.strict_align = strict_align
+        self.icache = {}
+        self.code_lo, self.code_hi = 1 << 33, 0
+        self.hooks = {}           # address (bit 0 clear) -> callable(machine): host function; returns through lr afterwards
+        self.trace = None         # set to a list to record (pc, thumb) of every executed instruction
+        self.writes = None
+
+    @property
+    def pc(self):
+        return self.r[15]
+
+    # -- memory
+    def load(self, addr, data):
+        o = addr - self.base
+        if o < 0 or o + len(data) > len(self.mem):
+            raise MemoryFault("image [%#x, %#x) outside memory" % (addr, addr + len(data)))
+        self.mem[o:o + len(data)] = data
+        self.icache.clear()
+
+    def read(self, addr, n, aligned=False):
+        o = addr - self.base
+        if o < 0 or o + n > len(self.mem):
+            raise MemoryFault("read of %d bytes at %#x outside memory (pc=%#x)" % (n, addr, self.r[15]))
+        if (aligned or self.strict_align) and addr % n:
+            raise MisalignedAccess("misaligned %d-byte read at %#x (pc=%#x)" % (n, addr, self.r[15]))
+        return int.from_bytes(self.mem[o:o + n], "little")
+
+    def write(self, addr, n, v, aligned=False):
+        o = addr - self.base
+        if o < 0 or o + n > len(self.mem):
+            raise MemoryFault("write of %d bytes at %#x outside memory (pc=%#x)" % (n, addr, self.r[15]))
+        if (aligned or self.strict_align) and addr % n:
+            raise MisalignedAccess("misaligned %d-byte write at %#x (pc=%#x)" % (n, addr, self.r[15]))
+        self.mem[o:o + n] = (v & ((1 << (8 * n)) - 1)).to_bytes(n, "little")
+        if self.writes is not None:
+            self.writes[addr] = n
+        if self.code_lo - 3 <= addr < self.code_hi:
+            for a in range(addr - 3, addr + n):
+                self.icache.pop((a, True), None)
+                self.icache.pop((a, False), None)
+
+    def fetch(self, pc, thumb):
+        key = (pc, thumb)
+        i = self.icache.get(key)
+        if i is None:
+            o = pc - self.base
+            if thumb:
+                if pc & 1:
+                    raise MisalignedAccess("thumb instruction fetch at odd address %#x" % pc)
+                if o < 0 or o + 2 > len(self.mem):
+                    raise MemoryFault("instruction fetch at %#x outside memory" % pc)
+                h1 = int.from_bytes(self.mem[o:o + 2], "little")
+                h2 = 0
+                if is_thumb32(h1):
+                    if o + 4 > len(self.mem):
+                        raise MemoryFault("instruction fetch at %#x crosses the end of memory" % pc)
+                    h2 = int.from_bytes(self.mem[o + 2:o + 4], "little")
+                try:
+                    i = decode_thumb(h1, h2)
+                except IllegalInstruction as e:
+                    e.pc = pc
+                    e.args = ("illegal thumb instruction %#x at pc=%#x (%s)" % (e.word, pc, e.why),)
+                    raise
+            else:
+                if pc & 3:
+                    raise MisalignedAccess("ARM instruction fetch at unaligned address %#x" % pc)
+                if o < 0 or o + 4 > len(self.mem):
+                    raise MemoryFault("instruction fetch at %#x outside memory" % pc)
+                try:
+                    i = decode_arm(int.from_bytes(self.mem[o:o + 4], "little"))
+                except IllegalInstruction as e:
+                    e.pc = pc
+                    e.args = ("illegal instruction %#010x at pc=%#x (%s)" % (e.word, pc, e.why),)
+                    raise
+            self.icache[key] = i
+            self.code_lo = min(self.code_lo, pc)
+            self.code_hi = max(self.code_hi, pc + 4)
+        return i
+
+    # -- conditions / pc writes
+    def cond_passed(self, c):
+        k = c >> 1
+        if k == 0:
+            r = self.z
+        elif k == 1:
+            r = self.c
+        elif k == 2:
+            r = self.n
+        elif k == 3:
+            r = self.v
+        elif k == 4:
+            r = self.c and not self.z
+        elif k == 5:
+            r = self.n == self.v
+        elif k == 6:
+            r = self.n == self.v and not self.z
+        else:
+            return True
+        return (not r) if c & 1 else bool(r)
+
+    def bx_write_pc(self, addr):
+        if addr & 1:
+            self.thumb = True
+            self._npc = addr & 0xFFFFFFFE
+        elif addr & 2 == 0:
+            self.thumb = False
+            self._npc = addr
+        else:
+            raise MisalignedAccess("UNPREDICTABLE: interworking branch to %#x (bits 1:0 = 10) at pc=%#x" % (addr, self.r[15]))
+
+    def branch_write_pc(self, addr):
+        self._npc = addr & (0xFFFFFFFE if self.thumb else 0xFFFFFFFC)
+
+    def alu_write_pc(self, addr):
+        if self.thumb:
+            self.branch_write_pc(addr)
+        else:
+            self.bx_write_pc(addr)
+
+    def rd(self, n):
+        if n == 15:
+            return (self.r[15] + (4 if self.thumb else 8)) & M32
+        return self.r[n]
+
+    # -- one instruction
+    def step(self):
+        pc = self.r[15]
+        thumb = self.thumb
+        i = self.fetch(pc, thumb)
+        if self.trace is not None:
+            self.trace.append((pc, thumb))
+        self._npc = (pc + i.size) & M32
+        in_it = False
+        if thumb and self.itstate & 15:
+            in_it = True
+            cond = self.itstate >> 4
+            last = (self.itstate & 15) == 8
+            if i.k in ("it", "cbz") or i.aux in ("bcond", "movs-t2") or (i.k in ("b", "bx", "tb") and not last):
+                raise IllegalInstruction(i.word, pc, "UNPREDICTABLE: %s inside an IT block" % text(i))
+        else:
+            cond = i.cond
+        if cond == AL or self.cond_passed(cond):
+            self._exec(i, in_it)
+            if in_it and self._npc != ((pc + i.size) & M32) and (self.itstate & 15) != 8:
+                raise IllegalInstruction(i.word, pc, "UNPREDICTABLE: write to pc inside an IT block (not last)")
+        if thumb and i.k != "it" and self.itstate:
+            self.itstate = 0 if self.itstate & 7 == 0 else (self.itstate & 0xE0) | ((self.itstate << 1) & 0x1F)
+        self.r[15] = self._npc
+        self.steps += 1
+
+    def _setnz(self, v):
+        self.n, self.z = v >> 31, 1 if v == 0 else 0
+
+    def _exec(self, i, in_it):
+        k = i.k
+        r = self.r
+        R = self.rd
+        if k == "dp":
+            n = i.name
+            S = i.s or (i.sit and not in_it)
+            cin = self.c
+            o2 = i.o2
+            if o2 == "reg":
+                b, sc = shift_c(R(i.rm), i.sh, i.sha, cin)
+            elif o2 == "imm":
+                b, sc = arm_expand_imm_c(i.imm, cin)
+            elif o2 == "timm":
+                b, sc = thumb_expand_imm_c(i.imm, cin)
+            elif o2 == "val":
+                b, sc = i.imm, cin
+            else:
+                b, sc = shift_c(r[i.rm], i.sh, r[i.rs] & 0xFF, cin)
+                if i.sh == RRX:
+                    raise AssertionError
+            a = R(i.rn) if i.rn is not None else 0
+            if i.rn == 15 and o2 in ("val",) and self.thumb:
+                a &= 0xFFFFFFFC
+            arith = None
+            if n in ("and", "tst"):
+                v = a & b
+            elif n in ("eor", "teq"):
+                v = a ^ b
+            elif n == "orr":
+                v = a | b
+            elif n == "orn":
+                v = a | (~b & M32)
+            elif n == "bic":
+                v = a & ~b & M32
+            elif n == "mov":
+                v = b
+            elif n == "mvn":
+                v = ~b & M32
+            else:
+                if n in ("add", "cmn", "addw"):
+                    arith = add_with_carry(a, b, 0)
+                elif n in ("sub", "cmp", "subw"):
+                    arith = add_with_carry(a, ~b & M32, 1)
+                elif n == "rsb":
+                    arith = add_with_carry(~a & M32, b, 1)
+                elif n == "adc":
+                    arith = add_with_carry(a, b, cin)
+                elif n == "sbc":
+                    arith = add_with_carry(a, ~b & M32, cin)
+                elif n == "rsc":
+                    arith = add_with_carry(~a & M32, b, cin)
+                else:
+                    raise AssertionError(n)
+                v = arith[0]
+            if i.rd is not None:
+                if i.rd == 15:
+                    if S:
+                        raise IllegalInstruction(i.word, r[15], "flag-setting write to pc")
+                    self.alu_write_pc(v)
+                else:
+                    r[i.rd] = v
+            if S:
+                self._setnz(v)
+                if arith:
+                    self.c, self.v = arith[1], arith[2]
+                else:
+                    self.c = sc
+        elif k == "mem":
+            self._mem(i)
+        elif k == "b":
+            tgt = (R(15) + i.imm) & M32
+            if i.link:
+                r[14] = (self._npc | 1) if self.thumb else self._npc
+            self.branch_write_pc(tgt)
+        elif k == "bx":
+            tgt = R(i.rm)
+            if i.link:
+                r[14] = (self._npc | 1) if self.thumb else self._npc
+            self.bx_write_pc(tgt)
+        elif k == "ldm":
+            self._ldm(i)
+        elif k == "stm":
+            self._stm(i)
+        elif k == "mov16":
+            if i.name == "movw":
+                r[i.rd] = i.imm
+            else:
+                r[i.rd] = (r[i.rd] & 0xFFFF) | (i.imm << 16)
+        elif k == "mul":
+            n = i.name
+            v = r[i.rn] * r[i.rm]
+            if n == "mla":
+                v += r[i.ra]
+            elif n == "mls":
+                v = r[i.ra] - v
+            v &= M32
+            r[i.rd] = v
+            if i.s or (i.sit and not in_it):
+                self._setnz(v)
+        elif k == "mull":
+            n = i.name
+            if n[0] == "s":
+                v = _sgn(r[i.rn]) * _sgn(r[i.rm])
+            else:
+                v = r[i.rn] * r[i.rm]
+            if n in ("umlal", "smlal"):
+                v += (r[i.ra] << 32) | r[i.rd]
+            elif n == "umaal":
+                v += r[i.ra] + r[i.rd]
+            v &= (1 << 64) - 1
+            r[i.rd], r[i.ra] = v & M32, v >> 32
+            if i.s:
+                self.n, self.z = v >> 63, 1 if v == 0 else 0
+        elif k == "smulxy":
+            a = sx(r[i.rn] >> (16 * i.aux[0]), 16)
+            b = sx(r[i.rm] >> (16 * i.aux[1]), 16)
+            v = a * b
+            if i.ra is not None:
+                v += _sgn(r[i.ra])
+                if v != _sgn(v & M32):
+                    self.q = 1
+            r[i.rd] = v & M32
+        elif k == "smm":
+            v = _sgn(r[i.rn]) * _sgn(r[i.rm])
+            if i.name.startswith("smmls"):
+                v = (_sgn(r[i.ra]) << 32) - v
+            elif i.ra is not None:
+                v += _sgn(r[i.ra]) << 32
+            if i.aux:
+                v += 0x80000000
+            r[i.rd] = (v >> 32) & M32
+        elif k == "div":
+            a, b = r[i.rn], r[i.rm]
+            if b == 0:
+                v = 0                       # divide-by-zero trapping disabled: result 0
+            elif i.name == "udiv":
+                v = a // b
+            else:
+                v = _divq(_sgn(a), _sgn(b)) & M32
+            r[i.rd] = v
+        elif k == "un":
+            n, x = i.name, r[i.rm]
+            if n == "clz":
+                v = 32 - x.bit_length()
+            elif n == "rev":
+                v = int.from_bytes(x.to_bytes(4, "little"), "big")
+            elif n == "rev16":
+                v = ((x & 0x00FF00FF) << 8) | ((x >> 8) & 0x00FF00FF)
+            elif n == "revsh":
+                v = sx(((x & 0xFF) << 8) | ((x >> 8) & 0xFF), 16) & M32
+            else:
+                v = int("{:032b}".format(x)[::-1], 2)
+            r[i.rd] = v
+        elif k == "ext":
+            x = ror32(r[i.rm], i.imm)
+            b = i.aux
+            bits = 8 if b[3] == "b" else 16
+            v = (sx(x, bits) if b[0] == "s" else x & ((1 << bits) - 1))
+            if i.rn is not None:
+                v += r[i.rn]
+            r[i.rd] = v & M32
+        elif k == "ext16":
+            x = ror32(r[i.rm], i.imm)
+            lo, hi = x & 0xFF, (x >> 16) & 0xFF
+            if i.aux[0] == "s":
+                lo, hi = sx(lo, 8), sx(hi, 8)
+            if i.rn is not None:
+                lo, hi = lo + (r[i.rn] & 0xFFFF), hi + (r[i.rn] >> 16)
+            r[i.rd] = ((hi & 0xFFFF) << 16) | (lo & 0xFFFF)
+        elif k == "sat":
+            x = _sgn(shift_c(r[i.rn], i.sh, i.sha, 0)[0])
+            lo, hi = (-(1 << (i.imm - 1)), (1 << (i.imm - 1)) - 1) if i.name == "ssat" else (0, (1 << i.imm) - 1)
+            y = min(max(x, lo), hi)
+            if y != x:
+                self.q = 1
+            r[i.rd] = y & M32
+        elif k == "pkh":
+            x = shift_c(r[i.rm], i.sh, i.sha, 0)[0]
+            if i.name == "pkhbt":
+                r[i.rd] = (x & 0xFFFF0000) | (r[i.rn] & 0xFFFF)
+            else:
+                r[i.rd] = (r[i.rn] & 0xFFFF0000) | (x & 0xFFFF)
+        elif k == "bfx":
+            x = (r[i.rn] >> i.imm) & ((1 << i.aux) - 1)
+            r[i.rd] = (sx(x, i.aux) & M32) if i.name == "sbfx" else x
+        elif k == "bfi":
+            mask = ((1 << i.aux) - 1) << i.imm
+            src = 0 if i.rn is None else (r[i.rn] << i.imm) & mask
+            r[i.rd] = (r[i.rd] & ~mask & M32) | src
+        elif k == "adr":
+            r[i.rd] = ((R(15) & 0xFFFFFFFC) + i.imm) & M32
+        elif k == "cbz":
+            if (r[i.rn] == 0) == (i.name == "cbz"):
+                self.branch_write_pc((R(15) + i.imm) & M32)
+        elif k == "tb":
+            base = R(i.rn)
+            if i.name == "tbb":
+                h = self.read((base + r[i.rm]) & M32, 1)
+            else:
+                h = self.read((base + 2 * r[i.rm]) & M32, 2)
+            self.branch_write_pc((R(15) + 2 * h) & M32)
+        elif k == "it":
+            self.itstate = i.imm
+        elif k == "nop":
+            pass
+        elif k == "trap":
+            raise Trap("%s at pc=%#x" % (text(i), r[15]))
+        else:
+            raise AssertionError(k)
+
+    def _mem(self, i):
+        r = self.r
+        n = i.name
+        base = self.rd(i.rn)
+        if i.rn == 15:
+            base &= 0xFFFFFFFC
+        if i.o2 == "imm":
+            off = i.imm
+        else:
+            off = shift_c(r[i.rm], i.sh, i.sha, self.c)[0]
+        oaddr = (base + off if i.U else base - off) & M32
+        addr = oaddr if i.P else base
+        if n in ("ldrd", "strd"):
+            if addr & 3:
+                raise MisalignedAccess("misaligned %s at %#x (pc=%#x)" % (n, addr, r[15]))
+            if n == "ldrd":
+                a, b = self.read(addr, 4), self.read((addr + 4) & M32, 4)
+                if i.W:
+                    r[i.rn] = oaddr
+                r[i.rt], r[i.rt2] = a, b
+            else:
+                self.write(addr, 4, r[i.rt])
+                self.write((addr + 4) & M32, 4, r[i.rt2])
+                if i.W:
+                    r[i.rn] = oaddr
+            return
+        size, signed, isload = _LDST[n]
+        if isload:
+            v = self.read(addr, size)
+            if signed:
+                v = sx(v, 8 * size) & M32
+            if i.W:
+                r[i.rn] = oaddr
+            if i.rt == 15:
+                if addr & 3:
+                    raise MisalignedAccess("UNPREDICTABLE: unaligned load to pc")
+                self.bx_write_pc(v)
+            else:
+                r[i.rt] = v
+        else:
+            self.write(addr, size, self.rd(i.rt))
+            if i.W:
+                r[i.rn] = oaddr
+
+    def _ldm(self, i):
+        r = self.r
+        cnt = bin(i.regs).count("1")
+        base = r[i.rn]
+        mode = i.aux
+        addr = {"ia": base, "ib": base + 4, "da": base - 4 * cnt + 4, "db": base - 4 * cnt}[mode] & M32
+        if addr & 3:
+            raise MisalignedAccess("misaligned ldm/pop at %#x (pc=%#x)" % (addr, r[15]))
+        vals = []
+        for k in range(16):
+            if i.regs & (1 << k):
+                vals.append((k, self.read(addr, 4)))
+                addr = (addr + 4) & M32
+        if i.W:
+            r[i.rn] = (base + 4 * cnt if mode in ("ia", "ib") else base - 4 * cnt) & M32
+        for k, v in vals:
+            if k == 15:
+                self.bx_write_pc(v)
+            else:
+                r[k] = v
+
+    def _stm(self, i):
+        r = self.r
+        cnt = bin(i.regs).count("1")
+        base = r[i.rn]
+        mode = i.aux
+        addr = {"ia": base, "ib": base + 4, "da": base - 4 * cnt + 4, "db": base - 4 * cnt}[mode] & M32
+        if addr & 3:
+            raise MisalignedAccess("misaligned stm/push at %#x (pc=%#x)" % (addr, r[15]))
+        for k in range(16):
+            if i.regs & (1 << k):
+                self.write(addr, 4, r[k])
+                addr = (addr + 4) & M32
+        if i.W:
+            r[i.rn] = (base + 4 * cnt if mode in ("ia", "ib") else base - 4 * cnt) & M32
+
+    def run(self, max_steps=100000, stop=SENTINEL):
+        n = 0
+        hooks = self.hooks
+        r = self.r
+        while r[15] != stop:
+            if n >= max_steps:
+                raise StepLimit("no return after %d instructions (pc=%#x)" % (max_steps, r[15]))
+            if hooks and r[15] in hooks:
+                if self.thumb and self.itstate & 15:
+                    raise EmuError("host function entered inside an IT block")
+                hooks[r[15]](self)
+                self._npc = r[15]
+                self.bx_write_pc(r[14])
+                r[15] = self._npc
+            else:
+                self.step()
+            n += 1
+        return n
+
+
+class Result:
+    __slots__ = ("r0", "r1", "regs", "machine", "steps")
+
+    def __init__(self, m, steps):
+        self.r0, self.r1, self.regs, self.machine, self.steps = m.r[0], m.r[1], list(m.r), m, steps
+
+
+def run(image_bytes, load_address, entry, args=(), stack_top=None, max_steps=100000, mem_size=1 << 18, mem_base=0, arg_regs=(0, 1, 2, 3),
+        strict_align=False, extra_images=(), init_regs=None, trace=False, hooks=None, thumb=False, stack_args=()):
+    """Load `image_bytes` at `load_address` (plus (address, bytes) pairs in extra_images); arguments (ints modulo 2^32) go to the
+    registers named by `arg_regs` (AAPCS: r0-r3) and `stack_args` are stored as words at sp upwards; lr = SENTINEL (bit 0 set when
+    `thumb`), sp = stack_top (default: 16 below the end of memory, minus the stack arguments, 8-byte aligned); run from `entry`
+    (bit 0 ignored) in ARM or Thumb state until control returns to SENTINEL.  -> Result (r0, r1, regs, machine, steps).
+    Raises IllegalInstruction / MemoryFault / MisalignedAccess / StepLimit / Trap."""
+    m = Machine(mem_size, mem_base, strict_align, thumb)
+    m.load(load_address, image_bytes)
+    for a, b in extra_images:
+        m.load(a, b)
+    if len(args) > len(arg_regs):
+        raise ValueError("only %d register arguments are supported" % len(arg_regs))
+    if init_regs:
+        for k, v in init_regs.items():
+            m.r[k] = v & M32
+    for k, v in zip(arg_regs, args):
+        m.r[k] = v & M32
+    sp = (mem_base + mem_size - 16 if stack_top is None else stack_top) & M32
+    if stack_args:
+        sp = (sp - 4 * len(stack_args)) & 0xFFFFFFF8
+        for k, v in enumerate(stack_args):
+            m.write(sp + 4 * k, 4, v & M32)
+    m.r[13] = sp
+    m.r[14] = SENTINEL | (1 if thumb else 0)
+    m.r[15] = entry & (0xFFFFFFFE if thumb else 0xFFFFFFFC)
+    if trace:
+        m.trace = []
+    if hooks:
+        m.hooks = {a & 0xFFFFFFFE: h for a, h in hooks.items()}
+    steps = m.run(max_steps)
+    return Result(m, steps)
